@@ -92,3 +92,113 @@ func ZZ_C20_X3a_dex_handlers_keep_holding_identity() {
 	sum, ok := zzSumWorld(sm)
 	zzAssert("X3a.total-equals-sum", ok && sum == sup.Total)
 }
+
+// C20 / X3b: batch settlement of liquidity withdrawals (the real handleBatchWithdraw, local side),
+// one inductive step from an arbitrary valid pool: a dead-address entry plus two providers with
+// symbolic points, symbolic local reserve x (= the pool's balance) and counter-chain mirror y, and a
+// batch of one or two withdrawals naming provider 0, provider 1 or a non-provider - the same provider
+// may be named twice (duplicate instructions inside one batch). Percent is 0..100 (CheckBasic of the
+// message bounds it; remote batches are certified by the counter chain's committee).
+// Obligations: points still sum to the total and no zero-point entry is left; the pool balance is the
+// new reserve; what leaves the pool is exactly what the accounts receive (nothing minted, nothing
+// burned); nobody receives more than the pro-rata share of the points they held; a provider that
+// did not ask keeps its points; nothing underflows. Bound: the reserves x and y are arbitrary
+// 62-bit / 64-bit values, provider points are taken from {1,3,10}, the dead address holds 1 or 1000
+// points and the percents are 0, 1, 50 or 100 - with symbolic points or percents the chained floor
+// divisions have symbolic divisors, which none of the solvers decided even for values <= 63 (the
+// single SafeMulDiv floor lemma X2.md is proved at 64 bits for arbitrary operands).
+//
+//zz:harness mode=int unwind=60 maxpaths=60000 timebudget=1500 obtimeout=120
+//zz:reach X3b.done X3b.paid
+func ZZ_C20_X3b_batch_withdraw_pays_shares_once() {
+	sm, _ := zzFSM(10)
+	total := zzWorld3(sm)
+	x, y := zzN64("x"), zzN64("y")
+	pts := []uint64{1, 3, 10}
+	pd := []uint64{1, 1000}[zzConcrete(zzInt("deadPoints"), 0, 1)]
+	p0, p1 := pts[zzConcrete(zzInt("points0"), 0, 2)], pts[zzConcrete(zzInt("points1"), 0, 2)]
+	zzAssume(total < 1<<62 && x < 1<<62)
+	// a pool that carries points holds tokens (SetPool deletes a pool whose balance is zero, points
+	// included); the obligation X3b.reserve-not-emptied keeps this inductive
+	zzAssume(x >= 1)
+	dead := []byte{0xde, 0xad, 0xde, 0xad, 0xde, 0xad, 0xde, 0xad, 0xde, 0xad, 0xde, 0xad, 0xde, 0xad, 0xde, 0xad, 0xde, 0xad, 0xde, 0xad}
+	T := pd + p0 + p1
+	lp := &Pool{Id: 2 + LiquidityPoolAddend, Amount: x, TotalPoolPoints: T,
+		Points: []*lib.PoolPoints{{Address: dead, Points: pd}, {Address: zzAddr(0), Points: p0}, {Address: zzAddr(1), Points: p1}}}
+	if sm.SetPool(lp) != nil {
+		panic("pool")
+	}
+	sup, _ := sm.GetSupply()
+	sup.Total = total + x
+	if sm.SetSupply(sup) != nil {
+		panic("supply")
+	}
+	sm.ResetCaches()
+	before := zzBalances(sm)
+	nw := zzConcrete(zzInt("withdrawals"), 1, 2)
+	batch := &lib.DexBatch{Committee: 2}
+	var who [2]int
+	var pct [2]uint64
+	for i := 0; i < nw; i++ {
+		who[i] = zzConcrete(zzInt("withdrawer"), 0, 2) // 2 = holds no points
+		pct[i] = []uint64{0, 1, 50, 100}[zzConcrete(zzInt("percent"), 0, 3)]
+		batch.Withdrawals = append(batch.Withdrawals, &lib.DexLiquidityWithdraw{Address: zzAddr(who[i]), Percent: pct[i], OrderId: zzOrderId})
+	}
+	xx, yy := x, y
+	err := sm.HandleBatchWithdraw(batch, 2, &xx, &yy, true)
+	zzAssert("X3b.never-fails-on-a-valid-pool", err == nil)
+	if err != nil {
+		return
+	}
+	sm.ResetCaches()
+	p, e := sm.GetPool(2 + LiquidityPoolAddend)
+	zzAssert("X3b.pool-readable", e == nil)
+	var sum uint64
+	held := [3]uint64{}
+	for _, pt := range p.Points {
+		sum += pt.Points
+		zzAssert("X3b.no-zero-point-entry-left", pt.Points != 0)
+		for i := 0; i < 2; i++ {
+			if string(pt.Address) == string(zzAddr(i)) {
+				held[i] = pt.Points
+			}
+		}
+		if string(pt.Address) == string(dead) {
+			held[2] = pt.Points
+		}
+	}
+	zzAssert("X3b.points-sum-to-the-total", sum == p.TotalPoolPoints)
+	zzAssert("X3b.dead-address-points-untouched", held[2] == pd)
+	zzAssert("X3b.pool-balance-is-the-new-reserve", p.Amount == xx)
+	zzAssert("X3b.reserves-only-shrink", xx <= x && yy <= y)
+	zzAssert("X3b.reserve-not-emptied", xx >= 1)
+	after := zzBalances(sm)
+	var paid uint64
+	old := [2]uint64{p0, p1}
+	for i := 0; i < 3; i++ {
+		zzAssert("X3b.accounts-only-grow", after[i] >= before[i])
+		got := after[i] - before[i]
+		paid += got
+		if i < 2 {
+			asked := false
+			for j := 0; j < nw; j++ {
+				asked = asked || who[j] == i
+			}
+			zzAssert("X3b.points-never-grow", held[i] <= old[i])
+			if !asked {
+				zzAssert("X3b.provider-that-did-not-ask-keeps-its-points", held[i] == old[i] && got == 0)
+			}
+			// pro-rata: got / x <= burned points / T  (floor rounding only ever favours the pool)
+			zzAssert("X3b.payout-within-the-share-of-the-burned-points", zzBigMul(got, T).Cmp(zzBigMul(x, old[i]-held[i])) <= 0)
+		} else {
+			zzAssert("X3b.non-provider-receives-nothing", got == 0)
+		}
+	}
+	if paid > 0 {
+		zzReach("X3b.paid")
+	}
+	zzAssert("X3b.pool-pays-exactly-what-accounts-receive", x-xx == paid)
+	sup1, _ := sm.GetSupply()
+	zzAssert("X3b.total-supply-unchanged", sup1.Total == total+x)
+	zzReach("X3b.done")
+}
